@@ -1080,6 +1080,71 @@ func (s *Fn) houdini() {
 							mk: func(v ssa.Value) Lin { return le(s.canon(v), s.lenOf(p).plus(off)) }})
 					}
 				}
+				// lock-step counters: two integer phis of the same header keep the difference they start with
+				// (n and the iteration count of a `for range k` loop that advances n once per round)
+				for _, in2 := range b.Instrs {
+					ph2, ok := in2.(*ssa.Phi)
+					if !ok {
+						break
+					}
+					if ph2 == phi || !isInt(ph2.Type()) {
+						continue
+					}
+					var i1, i2 ssa.Value
+					nEntry := 0
+					for i, pr := range b.Preds {
+						if !b.Dominates(pr) {
+							nEntry++
+							i1, i2 = phi.Edges[i], ph2.Edges[i]
+						}
+					}
+					if nEntry != 1 {
+						continue
+					}
+					a, c2 := i1, i2
+					cands = append(cands, &phiCand{b: b, phi: phi, phi2: ph2, ok: true, txt: "diff<=init",
+						mk2: func(v, w ssa.Value) Lin { return le(s.canon(v).add(s.canon(w), -1), s.canon(a).add(s.canon(c2), -1)) }})
+					cands = append(cands, &phiCand{b: b, phi: phi, phi2: ph2, ok: true, txt: "diff>=init",
+						mk2: func(v, w ssa.Value) Lin { return le(s.canon(a).add(s.canon(c2), -1), s.canon(v).add(s.canon(w), -1)) }})
+				}
+				// bounds taken from the comparisons the function makes: phi (+c) < w or <= w, for a value w computed
+				// before the loop
+				for _, b2 := range s.f.Blocks {
+					for _, in2 := range b2.Instrs {
+						cmp, ok := in2.(*ssa.BinOp)
+						if !ok {
+							continue
+						}
+						var lhs, rhs ssa.Value
+						switch cmp.Op {
+						case token.LSS, token.LEQ:
+							lhs, rhs = cmp.X, cmp.Y
+						case token.GTR, token.GEQ:
+							lhs, rhs = cmp.Y, cmp.X
+						default:
+							continue
+						}
+						base := lhs
+						if add, isAdd := lhs.(*ssa.BinOp); isAdd && add.Op == token.ADD {
+							if _, isK := add.Y.(*ssa.Const); isK {
+								base = add.X
+							}
+						}
+						if base != ssa.Value(phi) {
+							continue
+						}
+						w, isInstr := rhs.(ssa.Instruction)
+						if !isInstr || !isInt(rhs.Type()) || !(w.Block() != b && w.Block().Dominates(b)) {
+							continue
+						}
+						bound := rhs
+						for _, off := range []int64{-1, 0} {
+							off := off
+							cands = append(cands, &phiCand{b: b, phi: phi, ok: true, txt: "<=bound+off",
+								mk: func(v ssa.Value) Lin { return le(s.canon(v), s.canon(bound).plus(off)) }})
+						}
+					}
+				}
 				// pair with slice phis in same block: i + len(sl) <= len(p)
 				for _, in2 := range b.Instrs {
 					ph2, ok := in2.(*ssa.Phi)
